@@ -201,6 +201,78 @@ def bounded_seeded(ck):
     return {"evaluations": n, "failures": fails}
 
 
+def native_repro(ck):
+    """two identically seeded end-to-end runs (both channels, 525 km, synchronous scheduler) compared column by column"""
+    import contextlib
+    import importlib
+    import io
+
+    import dask
+    from nuspacesim.config import NssConfig
+
+    C = importlib.import_module("nuspacesim.compute")
+
+    def one():
+        c = NssConfig()
+        c.simulation.thrown_events = 400
+        with contextlib.redirect_stdout(io.StringIO()), contextlib.redirect_stderr(io.StringIO()), dask.config.set(scheduler="synchronous"), np.errstate(all="ignore"):
+            np.random.seed(ck.seed + 11)
+            return C.compute(c)
+
+    try:
+        a, b = one(), one()
+    except Exception as ex:
+        return {"violated": None, "note": "end-to-end run failed: %r" % ex}
+    diff = [k for k in a.colnames if k not in b.colnames or not _same_column(a[k], b[k])]
+    return {"violated": bool(diff), "input": {"seed": ck.seed + 11, "thrown_events": 400, "config": "default (Diffuse, mono, optical + radio, 525 km)"}, "observed": {"columns that differ between the two runs": diff[:6]}}
+
+
+def rng_sources(ck):
+    """every random draw of the simulation goes through numpy's seeded global generator: no stage builds a generator of its own, uses
+    the `random` / `secrets` modules, os.urandom or the clock.  Decided on the ASTs of every module under nuspacesim/simulation, utils and compute.py."""
+    import ast
+    import os
+
+    from nssvc import SRC
+
+    bad, nfiles, ncalls = [], 0, 0
+    own = {"default_rng", "RandomState", "Generator", "SeedSequence", "PCG64", "MT19937", "Philox", "SFC64", "urandom", "token_bytes", "getrandbits"}
+    for root in ("nuspacesim/simulation", "nuspacesim/utils", "nuspacesim/compute.py"):
+        ap = os.path.join(SRC, root)
+        files = [ap] if ap.endswith(".py") else [os.path.join(d, f) for d, _s, fs in os.walk(ap) for f in fs if f.endswith(".py")]
+        for f in files:
+            try:
+                tree = ast.parse(open(f).read())
+            except SyntaxError:
+                continue
+            nfiles += 1
+            rel = os.path.relpath(f, SRC)
+            ck.add_file(rel)
+            imported_random = False
+            for n in ast.walk(tree):
+                if isinstance(n, ast.Import) and any(a.name in ("random", "secrets") for a in n.names):
+                    imported_random = True
+                if isinstance(n, ast.ImportFrom) and n.module in ("random", "secrets", "numpy.random") and any(a.name in own or n.module in ("random", "secrets") for a in n.names):
+                    bad.append("%s:%d imports %s from %s" % (rel, n.lineno, [a.name for a in n.names], n.module))
+                if isinstance(n, ast.Call):
+                    fn = n.func
+                    name = fn.attr if isinstance(fn, ast.Attribute) else (fn.id if isinstance(fn, ast.Name) else None)
+                    chain = ast.unparse(fn) if hasattr(ast, "unparse") else ""
+                    if "random" in chain:
+                        ncalls += 1
+                    if name in own:
+                        bad.append("%s:%d calls %s" % (rel, n.lineno, chain))
+                    if chain.startswith("random.") and imported_random:
+                        bad.append("%s:%d calls %s (python's random module)" % (rel, n.lineno, chain))
+                    if name == "seed" and "random" in chain:
+                        bad.append("%s:%d re-seeds the generator (%s)" % (rel, n.lineno, chain))
+    ck.direct("simulation/rng.sources", not bad, "frame", "AST scan of %d modules (%d random-number call sites)" % (nfiles, ncalls), note="; ".join(bad[:4]),
+              clause="every random draw uses numpy's global generator (the one the caller seeds): no private generator, no other entropy source, no re-seeding inside the simulation",
+              witness={"offending": bad[:6]}, replay_out=None if not bad else native_repro(ck))
+    if nfiles == 0:
+        ck.vacuity["failed"].append("rng.sources: no module scanned")
+
+
 def run(ck):
     ck.assume("each stage is replaced by its contract stub, which declares the stage's random draws as a ghost effect; the real stages' own draw sites are obligations of C07 / C12 / C20 / C04",
               "scheduler independence of the shower stage is C10's assumption (dask.bag contract); bitwise determinism of numpy for equal inputs")
@@ -213,6 +285,12 @@ def run(ck):
             analyse(ck, mode, o, r, results)
         cross_isolation(ck, results, mode)
     kernel_obligations(ck)
+    rng_sources(ck)
+    # the optical and radio stages as functions of their inputs (rows that are not simulated get the stated defaults, nothing uninitialised)
+    from contracts import C08, C20
+
+    C08.stage(ck)
+    C20.radio_call(ck, skip_defined=True)
     from contracts import C03
 
     C03.target_checks(ck, [("Optical", True, False)], quick=True, lemmas_for=())
